@@ -74,8 +74,45 @@ def line_of(text, pos, version):
     return t.count('\n') + 1
 
 
+class _PinCx:
+    """minimal stand-in for xmlgen.Ctx for hand-written regression documents"""
+    def __init__(self, ns, tags):
+        self.ns = ns
+        self.version = '1.0'
+        self.tags = set(tags)
+        self.entity_order = []
+        self.attdecl_order = []
+        self.attdecls = {}
+        self.notations = []
+        self.unparsed = []
+
+
+def _se(q, attrs=(), uri=None):
+    return ('SE', q, uri, q.split(':')[-1], tuple(attrs), ())
+
+
+def pinned():
+    """witnesses of known/fixed findings, replayed on every run (expected events written by hand)"""
+    P = []
+
+    def add(text, ns, events, tags, atypes=None):
+        g = {'bytes': text.encode(), 'text': text, 'cx': _PinCx(ns, tags), 'doc': {'doctype': 'DOCTYPE' in text, 'root': {'qname': 'a'}},
+             'spans': [], 'encoding': 'UTF-8', 'expected': [('SD',)] + events + [('ED',)], 'atypes': atypes or {}, 'pinned': True}
+        P.append(g)
+    add('<!DOCTYPE a><a/>', False, [('DT', 'a', None, None), ('EDT',), _se('a'), ('EE', 'a', None, 'a', ())], ['doctype-no-subset', 'dtd'])
+    add('<!DOCTYPE a [<!ATTLIST a e (v0|v1) #IMPLIED n NMTOKEN #IMPLIED>]><a e=" v0  " n=" x "/>', False,
+        [('DT', 'a', None, None), ('EDT',), _se('a', [('e', None, 'e', 'v0', True, 'ENUM'), ('n', None, 'n', 'x', True, 'NMTOKEN')]), ('EE', 'a', None, 'a', ())],
+        ['dtd', 'tokenized-extra-space'], {('a', 'e'): 'ENUM', ('a', 'n'): 'NMTOKEN'})
+    add("<a xmlns='urn:x'><b>t</b></a>", True,
+        [('SE', 'a', 'urn:x', 'a', (('xmlns', xmlgen.XMLNS_NS, 'xmlns', 'urn:x', True, 'CDATA'),), (('', 'urn:x'),)),
+         ('SE', 'b', 'urn:x', 'b', (), ()), ('CH', 't'), ('EE', 'b', 'urn:x', 'b', ()), ('EE', 'a', 'urn:x', 'a', ())], ['ns'])
+    return P
+
+
 def gen_docs(ck, n, tag):
     docs = []
+    if tag == 0:
+        docs += pinned()
     for i in range(n):
         r = core.rng(ck.seed, PID, tag, i)
         big = (i % 97 == 0)
@@ -129,13 +166,14 @@ def run(tier):
         cases = []
         for i, g in enumerate(docs):
             cx = g['cx']
-            g['expected'] = xmlgen.expected_events(cx, g['doc'])
-            g['atypes'] = {}
-            for en, decl in cx.attdecls.items():
-                for an, d in decl.items():
-                    g['atypes'][(en, an)] = d['type']
+            if not g.get('pinned'):
+                g['expected'] = xmlgen.expected_events(cx, g['doc'])
+                g['atypes'] = {}
+                for en, decl in cx.attdecls.items():
+                    for an, d in decl.items():
+                        g['atypes'][(en, an)] = d['type']
             dt = g['doc']['doctype']
-            if dt and not (cx.entity_order or cx.attdecl_order or cx.notations or cx.unparsed) and '[' not in g['text'].split('<' + g['doc']['root']['qname'])[0].split('<!DOCTYPE')[-1]:
+            if dt and not g.get('pinned') and not (cx.entity_order or cx.attdecl_order or cx.notations or cx.unparsed) and '[' not in g['text'].split('<' + g['doc']['root']['qname'])[0].split('<!DOCTYPE')[-1]:
                 cx.tags.add('doctype-no-subset')
             # second opinion on values
             g['expat_ok'] = None
